@@ -77,7 +77,10 @@ def build_history(seed, tier):
     h = histories.gen_history(st, n_ops=rc.randint(2, 8), fault_rate=0.35, threaded_rate=0.15, nested_calls=True, extra_file=rc.random() < 0.3)
     tracers = c04.TRACERS_THOROUGH
     tracer = rc.choice(tracers)
-    return {'files': h['files'], 'ops': h['ops'], 'config': {'tracer': tracer, 'ref': True, 'ambient_trace': rc.random() < 0.3, 'allow_print': rc.random() < 0.15},
+    cfg = {'tracer': tracer, 'ref': True, 'ambient_trace': rc.random() < 0.3, 'allow_print': rc.random() < 0.15}
+    if rc.random() < 0.12:
+        cfg['sandbox_threaded'] = True       # sandbox-wide threaded mode: nested student imports get threads of their own
+    return {'files': h['files'], 'ops': h['ops'], 'config': cfg,
             'meta': {'entry': 'history', 'tracer': tracer, 'seed': seed}}
 
 
